@@ -11,13 +11,14 @@ bool g_ev_written; int g_ev_kind; const vstr* g_ev_src; size_t g_ev_koff, g_ev_k
 size_t g_nmap, g_ni, g_nj, g_nsz, g_pk; bool g_nused;
 int g_wit_kind; size_t g_wit_i, g_wit_j; bool g_wit_used;
 bool g_present, g_pkused, g_njused; ArgVec* g_vals;
-const vstr C17_empty_string; ArgVec C17_empty_vec;
+vstr C17_empty_string; char C17_empty_chars[1]; ArgVec C17_empty_vec;   /* Arguments::empty_string: a valid empty std::string */
 
 #define PRELUDE \
   Arguments* self; const vstr* name; ArgVec* vals; \
   bool in_present, in_pkused, in_njused; size_t in_pk, in_nj; \
   g_present = in_present; g_pkused = in_pkused; g_njused = in_njused; g_pk = in_pk; g_nj = in_nj; g_vals = vals; \
   C17_empty_vec.size = 0; C17_empty_vec.data = 0; \
+  C17_empty_chars[0] = 0; C17_empty_string.data = C17_empty_chars; C17_empty_string.size = 0; C17_empty_string.cap = 1; \
   verif_exc = EXC_none;
 
 void h_get_string_named(void) { PRELUDE; bool in_throw_if_missing; Arguments_get_string_named(self, name, in_throw_if_missing); VERIF_REACH(); }
